@@ -3,10 +3,10 @@ WAVLIB = ['pack.c', 'util.c', 'string.c', 'wavheader.c']
 CHECK = dict(
     level='fault_enumeration',
     parts=[dict(name='c14', src=['harness/c14_wavdecode.c'], lib=WAVLIB, workers=16,
-                deadline=dict(quick=120, thorough=900)),
+                deadline=dict(quick=300, thorough=1800)),
            dict(name='c14asan', src=['harness/c14_helpers.c'], lib=WAVLIB, workers=16,
                 cflags=['-fsanitize=address', '-fsanitize-recover=address', '-fno-omit-frame-pointer', '-O1'],
-                deadline=dict(quick=120, thorough=600))],
+                deadline=dict(quick=300, thorough=1800))],
     rule='bounded-exhaustive enumeration of malformed inputs to the real rf_wavheader_decode (librfn linked as separate objects, '
          'its statics reset before every decode): (S) every byte string of length 0..L; (H) nine header templates (PCM16, PCM32, '
          'float+fact, extensible with the 22-byte extension, 20-byte fmt chunk without it, PCM16+fact, extensible+fact, PCM16 '
